@@ -35,9 +35,10 @@ import (
 type CIOp struct {
 	Op       string   `json:"op"` // sync | acq | rel
 	Schemas  []Schema `json:"schemas,omitempty"`
-	Policies []string `json:"policies,omitempty"` // sync: flowControlSchemaName (hex) of policy k, which matches verb "v<k>"
+	Policies []string `json:"policies,omitempty"` // sync: flowControlSchemaName (hex) of the k-th dispatch policy, in spec order
+	Verbs    []int    `json:"verbs,omitempty"`    // sync: the k-th policy matches verb "v<Verbs[k]>" (absent: k); first match wins
 	Gate     bool     `json:"gate,omitempty"`     // sync: GlobalRateLimiter feature gate of the cluster
-	P        int      `json:"p,omitempty"`        // acq: the policy that matches the request
+	P        int      `json:"p,omitempty"`        // acq: the request's verb is "v<P>"
 	Id       int      `json:"id,omitempty"`
 	Of       int      `json:"of,omitempty"`
 }
@@ -48,6 +49,23 @@ type CICase struct {
 }
 
 const ciCluster = "c.local"
+
+func (op CIOp) verbOf(k int) int {
+	if k < len(op.Verbs) {
+		return op.Verbs[k]
+	}
+	return k
+}
+
+// schemaFor: the flowControlSchemaName of the first policy (spec order) that matches verb v<p>
+func (op CIOp) schemaFor(p int) (string, bool) {
+	for k, n := range op.Policies {
+		if op.verbOf(k) == p {
+			return n, true
+		}
+	}
+	return "", false
+}
 
 func ciUpstream(op CIOp, endpoint string) *proxyv1alpha1.UpstreamCluster {
 	uc := &proxyv1alpha1.UpstreamCluster{ObjectMeta: metav1.ObjectMeta{Name: ciCluster, Annotations: map[string]string{}}}
@@ -61,7 +79,7 @@ func ciUpstream(op CIOp, endpoint string) *proxyv1alpha1.UpstreamCluster {
 	}
 	for k, n := range op.Policies {
 		uc.Spec.DispatchPolicies = append(uc.Spec.DispatchPolicies, proxyv1alpha1.DispatchPolicy{
-			Rules:                 []proxyv1alpha1.DispatchPolicyRule{{Verbs: []string{fmt.Sprintf("v%d", k)}, APIGroups: []string{"*"}, Resources: []string{"*"}}},
+			Rules:                 []proxyv1alpha1.DispatchPolicyRule{{Verbs: []string{fmt.Sprintf("v%d", op.verbOf(k))}, APIGroups: []string{"*"}, Resources: []string{"*"}}},
 			FlowControlSchemaName: rig.UnHex(n)})
 	}
 	return uc
@@ -71,7 +89,7 @@ func ciUpstream(op CIOp, endpoint string) *proxyv1alpha1.UpstreamCluster {
 // main[i] = index of the hist op that carries the answer of CI op i (-1: the op is not executed).
 func (cs CICase) translate() (h HistCase, main []int) {
 	h = HistCase{Kind: "hist", Mode: "remote"}
-	var policies []string
+	var last CIOp
 	synced := false
 	for _, op := range cs.Ops {
 		switch op.Op {
@@ -83,14 +101,15 @@ func (cs CICase) translate() (h HistCase, main []int) {
 			h.Ops = append(h.Ops, Op{Op: "reset", C: rig.Hex(ciCluster), Mode: rig.Hex(mode)})
 			h.Ops = append(h.Ops, Op{Op: "sync", C: rig.Hex(ciCluster), Schemas: op.Schemas})
 			main = append(main, len(h.Ops)-1)
-			policies = op.Policies
+			last = op
 			synced = true
 		case "acq":
-			if !synced || op.P < 0 || op.P >= len(policies) {
+			name, matched := last.schemaFor(op.P)
+			if !synced || !matched {
 				main = append(main, -1)
 				continue
 			}
-			h.Ops = append(h.Ops, Op{Op: "acq", C: rig.Hex(ciCluster), N: policies[op.P], Id: op.Id})
+			h.Ops = append(h.Ops, Op{Op: "acq", C: rig.Hex(ciCluster), N: name, Id: op.Id})
 			main = append(main, len(h.Ops)-1)
 		case "rel":
 			if !synced {
@@ -235,26 +254,50 @@ func genCICase(c *rig.Ctx) CICase {
 			schemas = append(schemas, genSchema(c, n))
 		}
 	}
+	// the focus schema: most traffic goes to policies naming it, and policies stop naming it and name it again
+	focus := "system-default"
+	if len(schemas) > 0 && c.Rng.Intn(2) == 0 {
+		focus = rig.UnHex(schemas[c.Rng.Intn(len(schemas))].Name)
+	}
+	type policy struct {
+		verb int
+		name string // hex
+	}
 	np := 2 + c.Rng.Intn(3)
-	policies := []string{rig.Hex(""), rig.Hex("system-default")} // a policy under no schema and one naming the look-alike
+	policies := []policy{{0, rig.Hex("")}, {1, rig.Hex(focus)}} // a policy under no schema and one naming the focus schema
+	nextVerb := 2
 	for len(policies) < np {
-		policies = append(policies, rig.Hex(rig.Pick(c.Rng, ciPolicyNames)))
+		policies = append(policies, policy{nextVerb, rig.Hex(rig.Pick(c.Rng, ciPolicyNames))})
+		nextVerb++
 	}
 	c.Rng.Shuffle(len(policies), func(i, j int) { policies[i], policies[j] = policies[j], policies[i] })
 	gate := c.Rng.Intn(2) == 0
 	emit := func() {
-		cs.Ops = append(cs.Ops, CIOp{Op: "sync", Schemas: append([]Schema{}, schemas...), Policies: append([]string{}, policies...), Gate: gate})
+		op := CIOp{Op: "sync", Schemas: append([]Schema{}, schemas...), Gate: gate}
+		for _, p := range policies {
+			op.Policies = append(op.Policies, p.name)
+			op.Verbs = append(op.Verbs, p.verb)
+		}
+		cs.Ops = append(cs.Ops, op)
 	}
 	emit()
-	n := 8 + c.Rng.Intn(35)
+	n := 8 + c.Rng.Intn(40)
 	nextID := 1
 	var open []int
+	otherName := func() string {
+		for tries := 0; tries < 8; tries++ {
+			if x := rig.Pick(c.Rng, ciPolicyNames); x != focus {
+				return x
+			}
+		}
+		return ""
+	}
 	for len(cs.Ops) < n {
 		switch r := c.Rng.Intn(100); {
-		case r < 8: // the gate flips (mode switch), nothing else changes
+		case r < 6: // the gate flips (mode switch), nothing else changes
 			gate = !gate
 			emit()
-		case r < 16 && len(schemas) > 0: // a schema changes (resize or anything)
+		case r < 12 && len(schemas) > 0: // a schema changes (resize or anything)
 			i := c.Rng.Intn(len(schemas))
 			old := schemas[i]
 			schemas[i] = genSchema(c, rig.UnHex(old.Name))
@@ -266,7 +309,7 @@ func genCICase(c *rig.Ctx) CICase {
 				gate = !gate
 			}
 			emit()
-		case r < 19: // delete or (re-)add a schema
+		case r < 15: // delete or (re-)add a schema
 			name := rig.Pick(c.Rng, ciSchemaNames)
 			found := -1
 			for i, s := range schemas {
@@ -280,11 +323,63 @@ func genCICase(c *rig.Ctx) CICase {
 				schemas = append(schemas, Schema{Name: rig.Hex(name), Strategy: rig.Hex(""), Mi: i32(int32(c.Rng.Intn(3)))})
 			}
 			emit()
-		case r < 21: // a policy is pointed at another schema
-			policies[c.Rng.Intn(len(policies))] = rig.Hex(rig.Pick(c.Rng, ciPolicyNames))
+		case r < 33:
+			// a dispatch-policy-only change, the schema list stays as it is (requests are usually held across it)
+			switch m := c.Rng.Intn(12); {
+			case m < 6: // a policy stops naming its schema / names the focus schema (again)
+				k := c.Rng.Intn(len(policies))
+				for i, p := range policies { // prefer toggling policies that name the focus schema, or all of them at once
+					if rig.UnHex(p.name) == focus && c.Rng.Intn(2) == 0 {
+						k = i
+					}
+				}
+				if rig.UnHex(policies[k].name) == focus {
+					other := rig.Hex(otherName())
+					if c.Rng.Intn(2) == 0 { // every policy naming it lets go of it
+						for i := range policies {
+							if rig.UnHex(policies[i].name) == focus {
+								policies[i].name = other
+							}
+						}
+					}
+					policies[k].name = other
+				} else if c.Rng.Intn(4) > 0 {
+					policies[k].name = rig.Hex(focus)
+				} else {
+					policies[k].name = rig.Hex(rig.Pick(c.Rng, ciPolicyNames))
+				}
+			case m < 8 && len(policies) > 1: // reordered
+				c.Rng.Shuffle(len(policies), func(i, j int) { policies[i], policies[j] = policies[j], policies[i] })
+			case m < 10 && len(policies) > 1: // removed
+				k := c.Rng.Intn(len(policies))
+				policies = append(policies[:k:k], policies[k+1:]...)
+			default: // added: a new verb, or a second policy for an existing verb (first match wins)
+				v := nextVerb
+				if c.Rng.Intn(3) == 0 {
+					v = policies[c.Rng.Intn(len(policies))].verb
+				} else {
+					nextVerb++
+				}
+				name := rig.Hex(focus)
+				if c.Rng.Intn(3) == 0 {
+					name = rig.Hex(rig.Pick(c.Rng, ciPolicyNames))
+				}
+				at := c.Rng.Intn(len(policies) + 1)
+				policies = append(policies[:at:at], append([]policy{{v, name}}, policies[at:]...)...)
+			}
 			emit()
-		case r < 72:
-			cs.Ops = append(cs.Ops, CIOp{Op: "acq", P: c.Rng.Intn(len(policies)), Id: nextID})
+		case r < 78:
+			// a request arrives; usually its verb is one some policy matches, preferably one naming the focus schema
+			p := policies[c.Rng.Intn(len(policies))].verb
+			for _, q := range policies {
+				if rig.UnHex(q.name) == focus && c.Rng.Intn(2) == 0 {
+					p = q.verb
+				}
+			}
+			if c.Rng.Intn(25) == 0 {
+				p = c.Rng.Intn(nextVerb + 1) // possibly a verb no policy matches any more
+			}
+			cs.Ops = append(cs.Ops, CIOp{Op: "acq", P: p, Id: nextID})
 			open = append(open, nextID)
 			nextID++
 		default:
@@ -300,6 +395,71 @@ func genCICase(c *rig.Ctx) CICase {
 		}
 	}
 	return cs
+}
+
+// policyFeatures: did the history change dispatch policies only (schema list untouched) while requests were held,
+// and did a schema with held requests lose its last naming policy and get named again later?
+func policyFeatures(cs CICase, main []int, outs []Out) []string {
+	feats := map[string]bool{}
+	held := map[string]int{}   // schema name (hex) -> requests admitted under it and unfinished
+	under := map[int]string{}  // request id -> schema name it arrived under
+	orphaned := map[string]bool{}
+	var last *CIOp
+	named := func(op *CIOp, n string) bool {
+		for _, p := range op.Policies {
+			if p == n {
+				return true
+			}
+		}
+		return false
+	}
+	for i := range cs.Ops {
+		op := cs.Ops[i]
+		if main[i] < 0 || main[i] >= len(outs) {
+			continue
+		}
+		o := outs[main[i]]
+		switch op.Op {
+		case "sync":
+			if last != nil && rig.Canon(last.Schemas) == rig.Canon(op.Schemas) && last.Gate == op.Gate &&
+				(rig.Canon(last.Policies) != rig.Canon(op.Policies) || rig.Canon(last.Verbs) != rig.Canon(op.Verbs)) {
+				total := 0
+				for n, k := range held {
+					total += k
+					if k > 0 && n != "" && named(last, n) && !named(&op, n) {
+						orphaned[n] = true
+						feats["schema-with-held-requests-loses-its-last-policy"] = true
+					}
+					if k > 0 && orphaned[n] && !named(last, n) && named(&op, n) {
+						feats["schema-with-held-requests-named-again"] = true
+					}
+				}
+				if total > 0 {
+					feats["policy-only-change-with-requests-held"] = true
+				}
+			}
+			last = &cs.Ops[i]
+		case "acq":
+			if o.K == "acq" && o.Ok && last != nil {
+				if n, ok := last.schemaFor(op.P); ok {
+					held[n]++
+					under[op.Id] = n
+				}
+			}
+		case "rel":
+			if o.Did {
+				if n, ok := under[op.Of]; ok {
+					held[n]--
+					delete(under, op.Of)
+				}
+			}
+		}
+	}
+	var l []string
+	for f := range feats {
+		l = append(l, f)
+	}
+	return l
 }
 
 func genCI(c *rig.Ctx) {
@@ -332,6 +492,9 @@ func genCI(c *rig.Ctx) {
 		}
 		if underNone && underDefaultName {
 			c.Count("cinfo-feature:no-schema-policy-beside-schema-named-system-default")
+		}
+		for _, f := range policyFeatures(cs, main, outs) {
+			c.Count("cinfo-feature:" + f)
 		}
 		if !runCI(c, cs, false) {
 			runCI(c, shrinkCI(c, cs), true)
